@@ -98,7 +98,7 @@ def finished_contract(w: World):
         check(in_changeset(state, other), "another entry stays in the pending set")
 
 
-@lemma(props=["C11", "C02", "C04"], configs="sides")
+@lemma(props=["C11", "C02", "C04", "C03"], configs="sides")
 def entry_predicates_contract(w: World):
     """the classification predicates every dispatch lemma relies on, stated independently of their bodies: what counts as
     needing sync, a creation, a deletion, a path change, discarded / irrelevant / conflicted, trash"""
@@ -126,7 +126,7 @@ def entry_predicates_contract(w: World):
           "a content conflict: both sides named and hashed, and both differ from what was last synced")
 
 
-@lemma(props=["C11", "C05"], configs="none", raises=["AssertionError"],
+@lemma(props=["C11", "C05", "C02"], configs="none", raises=["AssertionError"],
        inline=["cloudsync.sync.state:SyncState.split"], fixed_clock=True)
 def split_contract(w: World):
     """the body of SyncState.split against the contract the manager lemmas use for it: the LOCAL side of the entry moves,
@@ -154,7 +154,7 @@ def split_contract(w: World):
     check(rep[0].sync_path is None and ent[1].sync_path is None, "and forget their last-synced path")
 
 
-@lemma(props=["C14", "C02"], configs="none", raises=["Exception"],
+@lemma(props=["C14", "C02", "C10"], configs="none", raises=["Exception"],
        inline=["cloudsync.sync.state:SyncEntry.get_latest"],
        stubs={"cloudsync.sync.state:SyncState.unconditionally_get_latest": {"results": ["None"], "havoc": False}})
 def get_latest_refreshes_stale_sides(w: World, force: bool):
